@@ -18,11 +18,11 @@ M == Pow2(W)
 
 SVal(v) == IF v >= M \div 2 THEN v - M ELSE v   \* signed reading of a W-bit natural
 
-Init == /\ x \in 0..(M - 1)
-        /\ y \in 0..(M - 1)
-        /\ phase = "pair"
+(* two-level fan-out so that TLC's workers share the pairs *)
+Init == x = 0 /\ y = 0 /\ phase = "boot"
 
-Next == UNCHANGED vars
+Next == \/ /\ phase = "boot" /\ x' \in 0..(M - 1) /\ y' = 0 /\ phase' = "x"
+        \/ /\ phase = "x" /\ y' \in 0..(M - 1) /\ x' = x /\ phase' = "pair"
 
 Sign(n) == IF n < 0 THEN -1 ELSE IF n > 0 THEN 1 ELSE 0
 
@@ -75,6 +75,10 @@ Extension ==
 
 NibbleView ==
     /\ Len(Nibbles(bx)) = NibbleCount(W)
+    /\ NibblesToBits(Nibbles(bx), W) = bx
+    /\ DecimalValue(<<x % 10, y % 10, (x \div 10) % 10>>, 1, 3) = (x % 10) + 10 * (y % 10) + 100 * ((x \div 10) % 10)
+    /\ DecimalValue(<<x % 10, y % 10, (x \div 10) % 10>>, 2, 9) = (y % 10) + 10 * ((x \div 10) % 10)
+    /\ TrailingRun(bx, 1, 1) = (CHOOSE r \in 0..W : (x + 1) % Pow2(r) = 0 /\ (r = W \/ (x + 1) % Pow2(r + 1) # 0))
     /\ \A j \in 1..NibbleCount(W) : Nibbles(bx)[j] = (x \div Pow2(4 * (j - 1))) % 16
     /\ ByteAt(bx, 0) = x % 256
     /\ \A k \in 0..(W - 1) : BitAt(OneHot(W, k), k) = 1 /\ ToNat(OneHot(W, k)) = Pow2(k)
@@ -122,6 +126,7 @@ Limbs ==
        IN  dg[1] + 10 * dg[2] + 100 * dg[3] = N % 1000
     /\ LVal(LimbDivPow10(NL, 2)) = N \div 100
 
-Inv == /\ RoundTrip /\ Arith /\ Compare /\ Shifts /\ Slices /\ Extension
+Inv == phase = "pair" =>
+       /\ RoundTrip /\ Arith /\ Compare /\ Shifts /\ Slices /\ Extension
        /\ NibbleView /\ Memory /\ Limbs
 =============================================================================
